@@ -31,7 +31,7 @@ def concat_with_iterable_(sources: Iterable[Observable[_T]]) -> Observable[_T]:
                 return
 
             def on_completed() -> None:
-                cancelable.disposable = _scheduler.schedule(action)
+                schedule_next()
 
             try:
                 current = next(sources_)
@@ -49,7 +49,15 @@ def concat_with_iterable_(sources: Iterable[Observable[_T]]) -> Observable[_T]:
                     scheduler=scheduler_,
                 )
 
-        cancelable.disposable = _scheduler.schedule(action)
+        def schedule_next() -> None:
+            # Assign the slot first: a scheduler running on another thread may
+            # hand over to the next source before schedule() returns here, and
+            # a late assignment must not cancel that newer subscription.
+            sad = SingleAssignmentDisposable()
+            cancelable.disposable = sad
+            sad.disposable = _scheduler.schedule(action)
+
+        schedule_next()
 
         def dispose() -> None:
             nonlocal is_disposed
